@@ -197,6 +197,8 @@ def sensitivity(args):
                 row['replay_on_repo_exit'] = r2.returncode
             row['result'] = 'CAUGHT' if (c.returncode == 1 and viol) \
                 else 'MISSED'
+            if meta.get('expect') == 'out_of_scope':
+                row['result'] = 'OUT-OF-SCOPE(' + row['result'].lower() + ')'
         finally:
             subprocess.run(['git', '-C', core.REPO, 'worktree', 'remove',
                             '--force', wt])
@@ -204,7 +206,8 @@ def sensitivity(args):
         rows.append(row)
         print(json.dumps(row, sort_keys=True))
         sys.stdout.flush()
-    missed = [r for r in rows if r.get('result') != 'CAUGHT']
+    missed = [r for r in rows if r.get('result') != 'CAUGHT'
+              and not str(r.get('result')).startswith('OUT-OF-SCOPE')]
     print('sensitivity: {} seeded changes, {} caught, {} not'.format(
         len(rows), len(rows) - len(missed), len(missed)))
     return 0 if not missed else 3
